@@ -574,8 +574,12 @@ namespace trompeloeil {
     }
   }
 #define TROMPELOEIL_VERIF_EVENT(name, obj, shared) ::trompeloeil::verif::event(name, obj, shared)
+#define TROMPELOEIL_VERIF_LIMITS(obj, seqs) \
+  (::trompeloeil::verif::event("g_lo", obj, static_cast<long>((seqs)->get_min_calls())), \
+   ::trompeloeil::verif::event("g_hi", obj, (seqs)->get_max_calls() > 1000000 ? -1L : static_cast<long>((seqs)->get_max_calls())))
 #else
 #define TROMPELOEIL_VERIF_EVENT(name, obj, shared) static_cast<void>(0)
+#define TROMPELOEIL_VERIF_LIMITS(obj, seqs) static_cast<void>(0)
 #endif
 
 #ifndef TROMPELOEIL_CUSTOM_RECURSIVE_MUTEX
@@ -814,6 +818,7 @@ namespace trompeloeil {
     location loc,
     std::string const &msg)
   {
+    TROMPELOEIL_VERIF_EVENT("g_report", nullptr, s == severity::fatal ? 0 : 1);
     reporter<T>::send(s, loc.file, loc.line, msg.c_str());
   }
 
@@ -1834,6 +1839,16 @@ template <typename T>
       return call_count;
     }
 
+#ifdef ROLLBEAR_TROMPELOEIL_VERIF
+    size_t
+      get_max_calls()
+      const
+      noexcept
+    {
+      return max_calls;
+    }
+#endif
+
     virtual
     void
       validate(severity s, char const *, location) = 0;
@@ -2341,13 +2356,16 @@ template <typename T>
   {
     call_matcher_base<Sig>* first_match = nullptr;
     unsigned lowest_cost = ~0U;
+    TROMPELOEIL_VERIF_EVENT("g_find", &list, 1);
     for (auto& i : list)
     {
       if (i.matches(p))
       {
         unsigned cost = i.sequence_cost();
+        TROMPELOEIL_VERIF_EVENT("g_cand", &i, static_cast<long>(cost));
         if (cost == 0)
         {
+          TROMPELOEIL_VERIF_EVENT("g_found", &i, 1);
           return &i;
         }
         if (!first_match || cost < lowest_cost)
@@ -2356,7 +2374,12 @@ template <typename T>
           lowest_cost = cost;
         }
       }
+      else
+      {
+        TROMPELOEIL_VERIF_EVENT("g_cand", &i, -1L);
+      }
     }
+    TROMPELOEIL_VERIF_EVENT("g_found", first_match, 1);
     return first_match;
   }
 
@@ -2394,6 +2417,7 @@ template <typename T>
         m.report_mismatch(os, p);
       }
     }
+    TROMPELOEIL_VERIF_EVENT("g_rkind", nullptr, 3);
     send_report<specialized>(severity::fatal, location{}, os.str());
     std::abort(); // must never get here.
   }
@@ -2929,6 +2953,7 @@ template <typename T>
       os << "called " << call_count << " times\n";
     }
     os << values;
+    TROMPELOEIL_VERIF_EVENT("g_rkind", nullptr, 1);
     send_report<specialized>(severity::nonfatal, loc, os.str());
   }
 
@@ -2942,6 +2967,7 @@ template <typename T>
     std::ostringstream os;
     os << "Match of forbidden call of " << name
        << " at " << loc << '\n' << values;
+    TROMPELOEIL_VERIF_EVENT("g_rkind", nullptr, 2);
     send_report<specialized>(severity::fatal, loc, os.str());
   }
 
@@ -2987,6 +3013,7 @@ template <typename T>
     ~call_matcher() override
     {
       auto lock = get_lock();
+      TROMPELOEIL_VERIF_EVENT("g_dtor", this, is_unfulfilled());
       if (is_unfulfilled())
       {
         report_missed("Unfulfilled expectation");
@@ -3029,6 +3056,7 @@ template <typename T>
     mock_destroyed()
     override
     {
+      TROMPELOEIL_VERIF_EVENT("g_mockdead", this, is_unfulfilled());
       if (is_unfulfilled())
       {
         report_missed("Pending expectation on destroyed mock object");
@@ -3041,6 +3069,9 @@ template <typename T>
     noexcept
     {
       list.push_front(this);
+      TROMPELOEIL_VERIF_EVENT("g_link", this, 1);
+      TROMPELOEIL_VERIF_EVENT("g_list", &list, 1);
+      TROMPELOEIL_VERIF_LIMITS(this, sequences);
       return this;
     }
 
@@ -3096,6 +3127,7 @@ template <typename T>
       if (sequences->is_forbidden())
       {
         reported = true;
+        TROMPELOEIL_VERIF_EVENT("g_forbidden", this, 1);
         report_forbidden_call(name, loc, params_string(params));
       }
       auto lock = get_lock();
@@ -3111,8 +3143,11 @@ template <typename T>
           sequences->retire();
           this->unlink();
           saturated_list.push_back(this);
+          TROMPELOEIL_VERIF_EVENT("g_sat", this, 1);
+          TROMPELOEIL_VERIF_EVENT("g_list", &saturated_list, 1);
         }
         TROMPELOEIL_VERIF_EVENT("handled", this, 1);
+        TROMPELOEIL_VERIF_EVENT("g_count", this, static_cast<long>(sequences->get_calls()));
       }
       send_ok_report<specialized>(name);
       for (auto& a : actions) a.action(params);
@@ -3133,6 +3168,7 @@ template <typename T>
     override
     {
       reported = true;
+      TROMPELOEIL_VERIF_EVENT("g_reported", this, 1);
       report_signature(os);
       if (match_parameters(val, params))
       {
@@ -3159,6 +3195,7 @@ template <typename T>
     noexcept
     {
       reported = true;
+      TROMPELOEIL_VERIF_EVENT("g_reported", this, 1);
       report_unfulfilled(
         reason,
         name,
@@ -3365,7 +3402,18 @@ template <typename T>
   struct expectations
   {
     expectations() = default;
+#ifdef ROLLBEAR_TROMPELOEIL_VERIF
+    expectations(expectations&& r) noexcept
+    : active(std::move(r.active)), saturated(std::move(r.saturated))
+    {
+      TROMPELOEIL_VERIF_EVENT("g_move", &r.active, 1);
+      TROMPELOEIL_VERIF_EVENT("g_list", &active, 1);
+      TROMPELOEIL_VERIF_EVENT("g_move", &r.saturated, 1);
+      TROMPELOEIL_VERIF_EVENT("g_list", &saturated, 1);
+    }
+#else
     expectations(expectations&&) = default;
+#endif
     ~expectations() {
       active.decommission();
       saturated.decommission();
